@@ -12,10 +12,12 @@ package domain
 
 //@ func (s EndpointStatus) IsRoutable
 //@   property C03 C06
+//@   safety
 //@   ensures res == isRoutable(s)
 
 //@ func (s EndpointStatus) GetTrafficWeight
 //@   property C06
+//@   safety
 //@   ensures isRoutable(s) ==> res > 0.0
 //@   ensures !isRoutable(s) ==> res == 0.0
 //@   ensures !isNaN(res) && !isInf(res) && res >= 0.0 && res <= 1.0
@@ -66,6 +68,7 @@ package domain
 
 //@ func NewHealthCheckError
 //@   property C07
+//@   safety
 //@   requires endpoint != nil
 //@   ensures res != nil && fresh(res)
 
@@ -79,14 +82,17 @@ package domain
 
 //@ func (s EndpointStatus) String
 //@   property C07 C03
+//@   safety
 //@   ensures res == s
 
 //@ func NewEndpointError
 //@   property C07 C03
+//@   safety
 //@   ensures res != nil && fresh(res)
 
 //@ func NewModelRoutingError
 //@   property C09
+//@   safety
 //@   ensures res != nil && fresh(res)
 
 //@ spec func listedURL(u string, xs []string) bool = exists li int :: 0 <= li && li < len(xs) && xs[li] == u
@@ -134,6 +140,7 @@ package domain
 
 //@ func NewRequestProfile
 //@   property C11
+//@   safety
 //@   ensures res != nil && fresh(res) && res.Path == path && len(res.SupportedBy) == 0 && res.RoutingDecision == nil && res.ModelCapabilities == nil && res.ModelName == ""
 
 //@ interface InferenceProfile.GetConfig()
@@ -143,6 +150,7 @@ package domain
 // ---- C10: filter configuration predicates
 //@ func (fc *FilterConfig) IsEmpty
 //@   property C10
+//@   safety
 //@   requires fc != nil
 //@   ensures res <==> (len(fc.Include) == 0 && len(fc.Exclude) == 0)
 
@@ -156,12 +164,14 @@ package domain
 
 //@ func (fc *FilterConfig) HasIncludeAll
 //@   property C10
+//@   safety
 //@   requires fc != nil && len(fc.Include) < 1000000
 //@   loop 1 invariant forall j int :: 0 <= j && j < i$1 ==> fc.Include[j] != "*"
 //@   ensures res <==> (len(fc.Include) == 0 || (exists i int :: 0 <= i && i < len(fc.Include) && fc.Include[i] == "*"))
 
 //@ func NewModelRegistryError
 //@   property C10
+//@   safety
 //@   ensures res != nil && fresh(res)
 
 //@ interface PlatformProfile.GetName
